@@ -301,7 +301,132 @@ func labelBlock() fam {
 	return fam{"label", ps, []any{nil, []any{1, nil, 2, 3}, map[string]any{"a": 1, "b": 2}, 0}, []any{"i1", "i2"}}
 }
 
+// ifelse: `if` WITHOUT else (and elif chains without a final else) in value and path positions, with then-branches
+// that emit no code (`.`), one instruction, or more; the implicit else is the identity
+func ifNoElseBlock() fam {
+	conds := []string{".a", ". > 1", ".", "true", "false", "null", ".[]?", "(.a, .b)", "empty", "error(\"c\")?", ".a and .b", ".a // false", "type == \"number\"", "length > 1", "not", "$v"}
+	thens := []string{".", "1", ".a", "., .", "empty", ". + 1", "[.]", "\"t\"", "error(\"t\")?", ".b?", "$v", "not"}
+	var ps []string
+	for i, c := range conds {
+		for j, t := range thens {
+			if j > 1 && (i+j)%3 != 0 {
+				continue
+			}
+			core := "if " + c + " then " + t + " end"
+			ps = append(ps, "2 as $v | "+core, "2 as $v | [.[]? | "+core+"]")
+			switch (i + j) % 4 {
+			case 0:
+				ps = append(ps, "2 as $v | ["+core+", .]", "2 as $v | [path("+core+")]?", "2 as $v | ("+core+") as $w | [$w, .]")
+			case 1:
+				ps = append(ps, "2 as $v | if "+c+" then "+t+" elif "+c+" then . end", "2 as $v | ("+core+") |= 5?", "2 as $v | {a: ("+core+")}")
+			case 2:
+				ps = append(ps, "2 as $v | if .b? then 0 elif "+c+" then "+t+" end", "2 as $v | [paths("+core+")]?", "2 as $v | ("+core+") + 10?")
+			default:
+				ps = append(ps, "2 as $v | "+core+" | "+core, "2 as $v | del("+core+")?", "2 as $v | [limit(2; "+core+")]")
+			}
+		}
+	}
+	ps = append(ps,
+		"if .a then . end", "[.[] | if . > 1 then . end]", "[.[]? | if . then . end]", "if . then . end", "if .a then . elif .b then . end", "if .a then . elif .b then . elif .c then . end", "[.[]? | if . == 1 then \"one\" elif . == 2 then \"two\" end]", "map(if . > 1 then . * 10 end)?", "map_values(if . == null then 0 end)?",
+		"if .a then .a end | if . then . end", "[if (true, false) then . end]", "[if .[]? then . end] | length", "if if .a then . end then 1 end", "if .a then (if .b then . end) end", "if .a then . end as $x | $x", "reduce .[]? as $x (0; if $x then . + 1 end)", "[foreach .[]? as $x (0; if $x then . + 1 end)]", "def f: if . > 2 then . else . + 1 | f end; def g: if . < 0 then -. end; [.[]? | numbers | g | f]",
+		"path(if .a then .a end)", "[paths(if type == \"number\" then . end)]", "(if .a then .a end) = 9", "(if .a then .b end) |= 7?", "del(if .a then .b end)?", "to_entries? | map(if .value then . end)", "walk(if type == \"number\" then . + 1 end)", "[.. | if type == \"array\" then length end]", "try (if .a then error(\"x\") end) catch \"c\"", "label $l | if .a then ., break $l end", "[limit(1; if .a then . end)]", "first(if .a then . end)", "if .a then . end // \"alt\"", "(if .a then empty end), 1", "[.[]? | select(if . then . end)]", "\"\\(if .a then \"y\" end)\"", "{a: (if .a then 1 end)}", "[if .a then . end, if .b then . end]")
+	ins := []any{map[string]any{"a": true, "b": 1}, map[string]any{"a": 5, "b": nil}, map[string]any{"a": nil, "b": false}, []any{1, 2, 3, nil, false}, 3, nil, true, []any{}}
+	return fam{"ifelse", ps, ins, nil}
+}
+
+// alias: values used SEVERAL times as the left operand of an operation that could be done in place (array / object
+// `+`, `*`, add, updates, big-number arithmetic): folded literals, run-time-built arrays, slices of both, input-borne
+// arrays and variables; every use must see the original value
+func aliasBlock() fam {
+	srcs := []string{"[1, 2, 3]", "[1, 2, 3 + 0]", "[1, 2, 3][:2]", "[1, 2, 3 + 0][:2]", ".", ".[:2]?", "[.[]?]", "[range(3)]", "([1, 2] + [3])", "[1, 2, 3][1:]", "(.a? // [7, 8])", "[limit(2; 1, 2, 3)]", "[[1], [2]]", "{a: [1, 2]}.a", "[1, [2, 3]][1]"}
+	uses := []string{
+		"%s as $x | [$x + [10], $x + [20]]", "%s as $x | [($x + [10]), $x, ($x + [20]), $x]", "%s | (. + [9]), .", "%s | (.[:2] + [9]), .", "%s | [(. + [1]), (. + [2])] | map(length)", "%s as $x | [$x[:1] + [5], $x, $x[:1] + [6]]", "%s as $x | reduce (1, 2) as $i ([]; . + [$x + [$i]])",
+		"%s as $x | [foreach (1, 2) as $i ($x; . + [$i]; .)] , $x", "%s as $x | [$x | .[length] = 9] + [$x]", "%s as $x | [($x | . += [9]), $x]", "%s as $x | [($x | .[0] = 9), $x]", "%s as $x | [($x | del(.[0])), $x]", "%s as $x | [[$x, $x] | add, $x]", "%s as $x | [[$x, [4]] | add] + [[$x, [5]] | add]", "%s as $x | [$x + $x, $x]",
+		"%s as $x | [($x | map(. ))+[1], $x]?", "%s as $x | [$x | sort, reverse] + [$x]?", "[%s, %s] | (.[0] + [9]), .", "%s as $x | ($x + [10]) as $y | ($x + [20]) as $z | [$y, $z, $x]", "def f: %s; [f + [1], f + [2], f]", "[(%s | . + [1]), (%s | . + [2])]", "%s | [.[:1] + [7], .[:1] + [8], .]", "%s | [. - [1], ., . - [2]]?", "%s as $x | [limit(3; repeat($x + [0]))] | map(length)",
+	}
+	var ps []string
+	for i, sv := range srcs {
+		for j, u := range uses {
+			if (i+j)%2 != 0 && !(i < 2 && j < 8) {
+				continue
+			}
+			ps = append(ps, strings.ReplaceAll(u, "%s", sv))
+		}
+	}
+	ps = append(ps,
+		"{a: 1} as $x | [$x + {b: 2}, $x + {c: 3}, $x]", "{a: 1, b: (1 + 1)} as $x | [$x + {b: 3}, $x * {a: {c: 1}}, $x]", "{a: {b: 1}} as $x | [$x * {a: {c: 2}}, $x * {a: {d: 3}}, $x]", ". as $x | [$x + {z: 1}, $x]?", "{a: [1]} as $x | [($x | .a += [2]), ($x | .a += [3]), $x]", "\"ab\" as $x | [$x + \"c\", $x + \"d\", $x]", "\"ab\" as $x | [$x * 2, $x * 3, $x]",
+		"[[1, 2], [3]] | [add, add, .]", "[[1, 2 + 0], [3]] | [add, add, .]", "[.[]? | arrays] | [add, add]?", "[1, 2, 3 + 0] | [.[:2] + [9], .[:2] + [8], .]", "[1, 2, 3 + 0] as $x | [$x[:2] + [9]] + [$x]", "[[1, 2, 3 + 0]] | [.[0] + [4], .[0] + [5], .[0]]", "{a: [1, 2, 3 + 0]} | [.a + [4], .a + [5], .a]", "[1, 2, 3 + 0] | to_entries | map(.value) + [4] | ., length",
+		"[range(5)] | [.[1:3] + [9], .]", "[range(5)] | .[1:3] as $s | [$s + [7], $s + [8], .]", "[range(5)] | [.[:2], .[:2] + [9], .[2:]]", "[range(4)] as $x | [$x[:3] + [9], $x[3]]", "[range(4)] as $x | [($x[:2] | . + [8, 9]), $x]", ".[:1]? + [0] , .", "(.[:1]? + [0]) as $y | [$y, .]", "[.[]?] | (. + [0]), (. + [1]) | length")
+	ins := []any{[]any{1, 2, 3}, []any{[]any{1}, []any{2, 3}}, map[string]any{"a": []any{4, 5, 6}}, []any{}, nil, []any{"x", "y", "z", "w"}}
+	return fam{"alias", ps, ins, nil}
+}
+
+// bigint: integers beyond int64 (literals, variables, input data) and int64 boundary values as operands of every
+// operator, under generator re-entry (the operand is evaluated / used several times and must keep its value)
+func bigintBlock() fam {
+	bigs := []string{"10000000000000000000000", "-10000000000000000000000", "9223372036854775808", "-9223372036854775809", "18446744073709551616", "340282366920938463463374607431768211456", "(9223372036854775807 + 1)", "(-9223372036854775807 - 2)", "(4611686018427387904 * 4)", ".", ".big?", "(.[]? | numbers)"}
+	ops := []string{"*", "+", "-", "/", "%"}
+	smalls := []string{"3", "-1", "2", "0", "1", "10000000000000000000000", "9223372036854775807", "1.5"}
+	var ps []string
+	for i, b := range bigs {
+		for j, op := range ops {
+			k := smalls[(i+j)%len(smalls)]
+			ps = append(ps,
+				fmt.Sprintf("[(1, 2, 3) | try (%s %s %s) catch \"E\"]", b, op, k), fmt.Sprintf("[(1, 2, 3) | try (%s %s %s) catch \"E\"]", k, op, b),
+				fmt.Sprintf("try (%s as $x | [($x %s %s), $x, ($x %s %s), $x]) catch \"E\"", b, op, k, op, k), fmt.Sprintf("try (%s as $x | [(%s %s $x), $x]) catch \"E\"", b, k, op))
+			if (i+j)%2 == 0 {
+				ps = append(ps,
+					fmt.Sprintf("try (%s as $x | reduce (1, 2, 3) as $i (0; . + (($x %s %s) | if type == \"number\" then 1 else 0 end)) , $x) catch \"E\"", b, op, k),
+					fmt.Sprintf("try [%s as $x | foreach (1, 2) as $i (1; ($x %s $i)), $x] catch \"E\"", b, op),
+					fmt.Sprintf("try (%s as $x | [$x %s $x, $x]) catch \"E\"", b, op), fmt.Sprintf("try ([%s] | [(.[0] %s %s), .[0]]) catch \"E\"", b, op, k),
+					fmt.Sprintf("try ({a: %s} | [(.a %s %s), .a, (.a %s= %s | .a)]) catch \"E\"", b, op, k, op, k), fmt.Sprintf("def f: %s; try [f %s %s, f, f %s %s] catch \"E\"", b, op, k, op, k))
+			}
+		}
+		ps = append(ps, fmt.Sprintf("try (%s as $x | [-$x, $x, ($x | -.), $x]) catch \"E\"", b), fmt.Sprintf("try (%s as $x | [$x == $x, $x < $x + 1, $x > $x - 1, ([$x, $x + 1, $x - 1] | sort | .[0] == $x - 1)]) catch \"E\"", b),
+			fmt.Sprintf("try (%s as $x | [($x | tostring), ($x | tojson), $x]) catch \"E\"", b), fmt.Sprintf("try (%s as $x | [($x | floor), ($x | abs?), $x] | map(type)) catch \"E\"", b))
+	}
+	ins := []any{nil, bigOf("10000000000000000000000"), bigOf("-18446744073709551617"), map[string]any{"big": bigOf("9223372036854775808")}, []any{bigOf("36893488147419103232"), 2, bigOf("-9223372036854775809")}, int(9223372036854775807), int(-9223372036854775808)}
+	return fam{"bigint", ps, ins, nil}
+}
+
+// intbound: int64 / int32 / 2^53 boundary integers as operands of + - * / % and unary minus, from input data, as
+// literals and as COMPUTED values (a literal -2^63 is a big integer in the AST, the computed one is a Go int)
+func intBoundBlock() fam {
+	vals := []string{
+		"9223372036854775807", "(-9223372036854775807 - 1)", "-9223372036854775807", "(9223372036854775806 + 1)", "(-9223372036854775808 + 0)", "(4611686018427387904 * -2)", "(0 - 9223372036854775807 - 1)", "2147483647", "-2147483648", "2147483648", "4294967296", "-4294967296", "4294967295",
+		"9007199254740992", "-9007199254740992", "9007199254740993", "0", "1", "-1", "2", ".", ".[0]?", ".[1]?", "(.[0]? // 0)",
+	}
+	ops := []string{"+", "-", "*", "/", "%"}
+	var ps []string
+	for i, a := range vals {
+		for j, b := range vals {
+			if !(i < 7 || j < 7 || i >= 20 || j >= 20) || (i*5+j*3)%4 != 0 {
+				continue
+			}
+			op := ops[(i+j)%len(ops)]
+			ps = append(ps, fmt.Sprintf("try (%s %s %s) catch \"E\"", a, op, b))
+			if (i+j)%3 == 0 {
+				ps = append(ps, fmt.Sprintf("try [%s as $l | %s as $r | ($l %s $r), ($r %s $l), $l, $r] catch \"E\"", a, b, op, op))
+			}
+		}
+	}
+	for _, a := range vals[:7] {
+		for _, op := range ops {
+			ps = append(ps,
+				fmt.Sprintf("try [0 %s %s, 1 %s %s, -1 %s %s] catch \"E\"", op, a, op, a, op, a), fmt.Sprintf("try [%s %s 0, %s %s 1, %s %s -1] catch \"E\"", a, op, a, op, a, op),
+				fmt.Sprintf("try [. %s %s, %s %s .] catch \"E\"", op, a, a, op), fmt.Sprintf("try ([.[]?] | map(numbers | . %s %s)) catch \"E\"", op, a), fmt.Sprintf("try (%s as $m | [.[]? | numbers | $m %s .]) catch \"E\"", a, op))
+		}
+		ps = append(ps, fmt.Sprintf("try [-(%s), (%s | -.), (%s | abs?), (%s | tojson)] catch \"E\"", a, a, a, a), fmt.Sprintf("try (%s | [. - 1, . + 1, . * 1, . / 1, . %% 2] | map(tojson)) catch \"E\"", a),
+			fmt.Sprintf("try (reduce (%s, 1, -1) as $v (0; . - $v)) catch \"E\"", a), fmt.Sprintf("try ([%s, %s] | add, (.[0] - .[1]), (.[1] - .[0])) catch \"E\"", a, a))
+	}
+	ins := []any{
+		int(-9223372036854775808), int(9223372036854775807), int(-9223372036854775807), 0, 1, -1, int(2147483648), int(-2147483649), int(9007199254740993),
+		[]any{int(-9223372036854775808), int(9223372036854775807)}, []any{int(9223372036854775807), int(-9223372036854775808), 1, -1}, []any{1, int(-9223372036854775808)}, nil,
+	}
+	return fam{"intbound", ps, ins, nil}
+}
+
 // the deterministic blocks, in the order they run
 func firstBlocks() []fam {
-	return []fam{regressBlock(), scopeBlock(), calleeBlock(), boundaryBlock(), markerBlock(), optBlock(), redefBlock(), patternBlock(), labelBlock()}
+	return []fam{regressBlock(), scopeBlock(), calleeBlock(), boundaryBlock(), markerBlock(), optBlock(), redefBlock(), patternBlock(), labelBlock(), ifNoElseBlock(), aliasBlock(), bigintBlock(), intBoundBlock()}
 }
